@@ -91,7 +91,7 @@ class ShardClose(Contract):
     """configs: (minishard_bits, the set of minishard numbers that hold chunks); every minishard has a
     symbolic number of chunks and symbolic data; index and data encoding raw."""
     target = SF + "Shard.close"
-    props = ("C04", "C18")
+    props = ("C04",)
     use_at_call_sites = False
     configs = _cfgs()
     timeout_ms = 60000
@@ -186,6 +186,19 @@ class ShardClose(Contract):
 
     def replay(self, model, cfg, ob_name):
         return native_shard_check(cfg)
+
+
+@register
+class ShardCloseWriteOrder(ShardClose):
+    """C18's share of Shard.close: only the write-order / completeness obligations (the index-slot
+    obligations belong to C04 and its recorded finding)"""
+    name = "Shard.close[write-order]"
+    props = ("C18",)
+
+    def ensures(self, c, result):
+        for nm, cond in super().ensures(c, result):
+            if nm.startswith(("write-order", "closed:", "exactly-one-file", "file-length")) or "chunk-data-stored" in nm:
+                yield nm, cond
 
 
 def native_shard_check(cfg):
